@@ -105,9 +105,13 @@ where
         let u: F = rng.random();
 
         if u <= mu / (mu + x) {
+            #[cfg(rand_distr_verif)]
+            crate::verif_hooks::probe(71);
             return x;
         }
 
+        #[cfg(rand_distr_verif)]
+        crate::verif_hooks::probe(72);
         mu * mu / x
     }
 }
